@@ -123,6 +123,35 @@ pub fn run(run: &Run) {
             cp += n as u32;
         }
     });
+    composing_pairs(run, "all_composing_pairs", &|s, l| PROFS.iter().all(|p| match check(run, *p, s, l) {
+        Ok(()) => true,
+        Err(_) => {
+            report(run, *p, s);
+            false
+        }
+    }));
+    // every character with a lowercase mapping followed by every composing tail character (case mapping before/after NFC)
+    run.par("cased_times_composing_tail", true, |tid, n, l| {
+        let pp = crate::gens::pools();
+        for (i, a) in pp.cased_all.iter().enumerate() {
+            if i % n != tid {
+                continue;
+            }
+            if run.stopped() {
+                return;
+            }
+            for b in pp.compose_tail.iter() {
+                let s = format!("{a}{b}");
+                for p in [Prof::UserMapped, Prof::Nick] {
+                    l.cases += 1;
+                    if check(run, p, &s, l).is_err() {
+                        report(run, p, &s);
+                        return;
+                    }
+                }
+            }
+        }
+    });
     let pl: Vec<&str> = PAYLOADS_SPACE.iter().chain(PAYLOADS_FREE.iter()).chain(PAYLOADS_USER.iter()).copied().collect();
     stress(run, "alignment_and_runs", &pl, &|s, l| {
         for p in PROFS {
